@@ -18,7 +18,7 @@ import operator
 import numpy as np
 
 from sim import gen
-from sim.fingerprint import canon, diff, fpc
+from sim.fingerprint import canon, canon_loose, diff, fpc
 from sim.recipes import build
 from sim.rng import Stream
 
@@ -236,18 +236,20 @@ def mk_value(kind, tok, near=False):
     r = gen.value_recipe(kind, tok)
     if near and kind == 'pixpos':
         r = dict(r)
-        r['x'] = r['x'] * (1 + 2e-6) if r['x'] else 2e-9
-        r['y'] = r['y'] * (1 - 2e-6) if r['y'] else -2e-9
+        # (a coordinate that is exactly 0 stays 0: the documented tolerance
+        # is relative, what happens around 0 is left to the implementation)
+        r['x'] = r['x'] * (1 + 2e-6)
+        r['y'] = r['y'] * (1 - 2e-6)
     if deco == 'far' and kind == 'pixpos':
         r = dict(r)
         r['x'] = r['x'] * (1 + 1e-4) if r['x'] else 1e-6
     if deco in ('out11x', 'out11y', 'in9x', 'in9y') and kind == 'pixpos':
         # just outside (1.1e-5) / just inside (0.9e-5) the documented
-        # relative tolerance, on one coordinate; at 0 the absolute 1e-8
+        # relative tolerance, on one coordinate (at 0: clearly off / exact)
         r = dict(r)
         ax = deco[-1]
-        rel, ab = (-1.1e-5, -2e-8) if deco.startswith('out') \
-            else (0.9e-5, 5e-9)
+        rel, ab = (-1.1e-5, -1e-4) if deco.startswith('out') \
+            else (0.9e-5, 0.0)
         if ax == 'y':         # away from the 'near' variant (x up, y down)
             rel, ab = -rel, -ab
         r[ax] = r[ax] * (1 + rel) if r[ax] else ab
@@ -669,9 +671,6 @@ def domain_problems(obj):
             out.append(('operator', 'operator not callable'))
     else:
         for f, kind in gen.ALL_CLASSES.get(name, []):
-            if f not in obj.__dict__ and f != 'text':
-                out.append((f, f'{f} missing'))
-                continue
             if not hasattr(obj, f):
                 out.append((f, f'{f} missing'))
                 continue
@@ -992,7 +991,9 @@ class Machine:
         for f in names:
             if f in changed:
                 continue
-            ca, cb = canon(getattr(S.obj, f)), canon(getattr(obj, f))
+            # (value-level: dict order, dtype, flags are not compared)
+            ca = canon_loose(getattr(S.obj, f))
+            cb = canon_loose(getattr(obj, f))
             if ca != cb:
                 self.violation(
                     'V2-copy-field', f'{how} of {cls}: field {f!r} of the '
@@ -1038,9 +1039,12 @@ class Machine:
                 if _ntok(t) == _ntok(m.tok[f]):
                     continue
                 cand = mk_value(kind, t)
-                try:
-                    obj.copy(**{f: cand})     # e.g. keeps an annulus ordered
-                except ValueError:
+                ordered = True                # keep an annulus ordered
+                for inner, outer in gen.ANNULUS_PAIRS.get(cls, []):
+                    if f in (inner, outer):
+                        ov = getattr(obj, outer if f == inner else inner)
+                        ordered = ordered and _strictly(cand, ov, f == inner)
+                if not ordered:
                     continue
                 val, new_tok = cand, t
                 break
@@ -1198,10 +1202,10 @@ class Machine:
         # the named fields hold exactly what was passed
         for f, v in changes.items():
             got = getattr(obj, f)
-            if canon(got) != canon(v):
+            if canon_loose(got) != canon_loose(v):
                 self.violation('V2-copy-field', f'copy({f}=...) of '
                                f'{S.model.cls}: field holds '
-                               f'{diff(canon(v), canon(got))}',
+                               f'{diff(canon_loose(v), canon_loose(got))}',
                                cls=S.model.cls, field=f)
         i = self.add_slot('region', obj, m)
         # objects passed in **changes are by-design shared with the copy and
@@ -1674,7 +1678,7 @@ class Machine:
                               build({'t': 'pix', 'x': 1.0, 'y': 2.0})])
             try:
                 r1, r2, r3 = S.obj == other, S.obj != other, other == S.obj
-                if r1 is not False or r2 is not True or bool(r3):
+                if bool(r1) or not bool(r2) or bool(r3):
                     self.violation('V3-eq-model', f'slot {a} '
                                    f'({S.model.cls}) compared with a '
                                    f'{type(other).__name__}: == gives {r1!r}, '
@@ -2519,7 +2523,7 @@ class Machine:
             out, res = self.c17_outcome(lambda: RegionMask(data, bbox),
                                         invalid, what, 'RegionMask', 'data',
                                         value)
-            if out == 'ok' and (res.bbox is not bbox or
+            if out == 'ok' and (not same_value(res.bbox, bbox) or
                                 not np.array_equal(res.data, data)):
                 self.violation('A3-readback', 'mask data/bbox do not read '
                                'back', cls='RegionMask')
